@@ -70,6 +70,10 @@ class TCPServer:
                 await self.protocol.initiate()
                 await self.idle_task.restart(task_group, self._idle_timeout)
                 await self._read_data()
+                # Nothing more can arrive, so nothing is left to time
+                # out (otherwise the idle task keeps this handler, and
+                # the connection, alive until it fires).
+                await self.idle_task.stop()
         except OSError:
             pass
         finally:
